@@ -1,5 +1,5 @@
 CONSTANTS MaxRow = 1048576 MaxCol = 16384
-  NSheets = {1, 2} Pool = "intern" NPos = 4 MaxCells = 3 Depth = 5 MaxSaves = 2 Wide = FALSE Emit = "none" Dev = {}
+  NSheets = {1, 2} Pool = "intern" NPos = 3 MaxCells = 3 Depth = 5 MaxSaves = 2 Wide = FALSE Emit = "none" Dev = {}
 SPECIFICATION MCSpec
 VIEW View
 INVARIANTS WellFormed FileWellFormed RoundTripNow Stable
